@@ -28,7 +28,7 @@ import numpy as np
 
 from engine import build, shim
 
-LEAF_CLASSES = ["Affine", "Loc", "Scale", "TriangularAffine", "TriangularAffineScaled", "Exp", "SoftPlus", "Tanh", "LeakyTanh", "Identity", "Flip",
+LEAF_CLASSES = ["Affine", "Loc", "Scale", "TriangularAffine", "TriangularAffineScaled", "UserAffine", "UserShiftChain", "Exp", "SoftPlus", "Tanh", "LeakyTanh", "Identity", "Flip",
                 "Permute", "RationalQuadraticSpline", "RationalQuadraticSplineOffCentre", "PlanarLeaky", "PlanarTanh", "AdditiveCondition", "Coupling",
                 "CouplingSpline", "MaskedAutoregressive", "MaskedAutoregressiveSpline", "MaskedAutoregressiveExp", "MaskedAutoregressiveWide",
                 "BlockAutoregressiveNetwork", "BlockAutoregressiveNetworkDeep",
@@ -77,6 +77,12 @@ def leaf(cls, shape, rs, regime, key):
         A[np.arange(d), np.arange(d)] = rs.uniform(0.5, 2.0, size=d) * mag
         # loc = 0: a location of order 1 added to A x of order 1e-22 would absorb x (ill-conditioning that cond(J) does not see)
         return bj.TriangularAffine(jnp.zeros(d), jnp.asarray(A), lower=(var < 2))
+    if cls == "UserAffine":          # a user's own AbstractBijection subclass
+        from harness.userext import UserAffine
+        return UserAffine(rs.normal(size=shape) * 0.5, rs.normal(size=shape))
+    if cls == "UserShiftChain":      # a user's conditional bijection composed with library ones
+        from harness.userext import UserAffine, UserShift
+        return bj.Chain([UserShift(rs.normal(size=shape), (2,)), bj.Tanh(shape), bj.Invert(UserAffine(rs.normal(size=shape) * 0.5, rs.normal(size=shape)))])
     if cls in ("Exp", "SoftPlus", "Tanh", "Identity", "Flip"):
         return getattr(bj, cls)(shape)
     if cls == "LeakyTanh":
